@@ -296,10 +296,33 @@ def replay_stream_first_sight(status, model):
     return {'reproduced': bool(bad), 'what': '; '.join(bad) or 'fields are the reported ones', 'args': args}
 
 
+def replay_destroy(which, shape, model):
+    """TorState.circuit_closed / circuit_failed on a real TorState with one known circuit, the event carrying the given reason keywords"""
+    import txtorcon.torstate as ts
+    import txtorcon.circuit as circuit
+    st = ts.TorState.__new__(ts.TorState)
+    st.circuits = {}
+    c = circuit.Circuit(FakeState())
+    c.id = 5
+    st.circuits[5] = c
+    kw = {'no_reason': {}, 'both_reasons': {'REASON': model.get('reason') or 'DESTROYED', 'REMOTE_REASON': model.get('remote_reason') or 'CHANNEL_CLOSED'},
+          'remote_reason_only': {'REMOTE_REASON': model.get('remote_reason') or 'CHANNEL_CLOSED'}, None: {'REASON': model.get('reason') or 'DESTROYED'}, 'reason': {'REASON': model.get('reason') or 'DESTROYED'}}[shape]
+    res = _fired(c.when_built())
+    try:
+        getattr(st, which)(c, **kw)
+    except Exception as e:
+        return {'reproduced': True, 'what': '%s(circuit, **%r) raised %r; the circuit is %s in TorState.circuits' % (which, kw, e, 'still' if 5 in st.circuits else 'no longer')}
+    bad = 5 in st.circuits or len(res) != 1
+    return {'reproduced': bool(bad), 'what': '%s(circuit, **%r): circuit %s, built-wait fired %d time(s)' % (which, kw, 'still known' if 5 in st.circuits else 'forgotten', len(res))}
+
+
 def replay(unit, name, model):
     """dispatch on the unit name (C07/... or C08/...)"""
     model = model or {}
     part = unit.split('/', 1)[1]
+    m = re.match(r'TorState\.(circuit_closed|circuit_failed)(?:@(\w+))?$', part)
+    if m:
+        return replay_destroy(m.group(1), m.group(2), model)
     m = re.match(r'(Circuit|Stream)\.close@(gone|pending|fresh)$', part)
     if m:
         return replay_close(m.group(1), m.group(2), model)
